@@ -393,6 +393,9 @@ class Evaluator:
             base = self.eval(n.value, env)
             if isinstance(base, (str, list, dict, tuple, set)) and n.attr in _SAFE_METHODS.get(type(base).__name__, ()):
                 return _bound(base, n.attr)
+            if (base is None or type(base) in (bool, int, float, str, list, tuple, dict, set, frozenset)) and not hasattr(base, n.attr):
+                # a plain Python value where an object of the library was expected (`flag.then(..)` on the constant True)
+                raise Raised(f"AttributeError('{type(base).__name__}' object has no attribute '{n.attr}')")
             if isinstance(base, _re.Pattern) and n.attr in ("match", "fullmatch", "search"):
                 return _strfn(getattr(base, n.attr))
             if isinstance(base, _re.Match) and n.attr in ("group", "groups"):
@@ -1291,7 +1294,7 @@ class IndexOutOfRange(Exception):
 
 FELL = Tag("FELL-OFF-END")
 
-_EXC_PARENTS = {"IndexError": ("LookupError",), "KeyError": ("LookupError",), "ZeroDivisionError": ("ArithmeticError",),
+_EXC_PARENTS = {"AttributeError": (), "IndexError": ("LookupError",), "KeyError": ("LookupError",), "ZeroDivisionError": ("ArithmeticError",),
                 "OverflowError": ("ArithmeticError",), "UnicodeError": ("ValueError",), "UnicodeDecodeError": ("UnicodeError",),
                 "UnicodeEncodeError": ("UnicodeError",), "NotImplementedError": ("RuntimeError",), "RecursionError": ("RuntimeError",),
                 "ModuleNotFoundError": ("ImportError",), "FileNotFoundError": ("OSError",), "PermissionError": ("OSError",),
